@@ -12,10 +12,10 @@ from ..report import violation
 PID = "C10"
 LEVEL = "model_checking"
 SAVERS = ["mem", "pickle", "weights_only", "safetensors"]
-TARGETS = ["same", "default", "requantize", "same_frozen", "reload_twice"]
+TARGETS = ["same", "same_assign", "default", "requantize", "same_frozen", "reload_twice"]
 RULE = (
     "for every configuration (6 toy models x 6 weight qtypes incl. the qfloat8 alias, grouped and ungrouped int4/int2 x activations {None,qint8,e4m3} x dtype {f32,f16,bf16}) "
-    "breadth-first search over histories of {freeze, calibrate, save+load cycle (4 serializers x 5 targets: same-quantized, default-quantized, requantize(), same-quantized already frozen with other weights, a model that loaded another checkpoint first)} to depth 3 (quick) / 4 (thorough), "
+    "breadth-first search over histories of {freeze, calibrate, save+load cycle (4 serializers x 6 targets: same-quantized (load_state_dict with and without assign=True), default-quantized, requantize(), same-quantized already frozen with other weights, a model that loaded another checkpoint first)} to depth 3 (quick) / 4 (thorough), "
     "continuing with the loaded model (repeated cycles). Each cycle checks: only plain tensors and strings in the state_dict; the loaded model has identical content hash (codes, scales, "
     "zero-points, qtypes, group sizes, activation scales, float weights when unfrozen), bit-identical outputs on two probe inputs, parameters on the target's device; saving again gives an "
     "equal state_dict key by key. Non-trivial = save/load cycles."
@@ -59,9 +59,9 @@ def _save_load(sd, saver):
 def _target(cfg, target, sd):
     from optimum.quanto import quantize, requantize
 
-    if target == "same":
+    if target in ("same", "same_assign"):
         m = models.build_quantized(cfg["model"], cfg["dt"], cfg["w"], cfg["a"])
-        m.load_state_dict(sd)
+        m.load_state_dict(sd, assign=(target == "same_assign"))
         return m
     if target in ("same_frozen", "reload_twice"):
         # a target that already holds (other) frozen weights: frozen before loading / a different checkpoint loaded first
